@@ -139,7 +139,7 @@ def run(ctx):
     rebind(ctx)
     rebind_order(ctx)
     ctx.floor("TAB-MACRO", 34)
-    ctx.floor("TAB-MINMAX", 6)
+    ctx.floor("TAB-MINMAX", 12)
     ctx.floor("ACC-REBIND", 12)
     ctx.floor("LINT", 8)
 
@@ -280,7 +280,56 @@ def tables(ctx):
         ctx.instance("TAB-MACRO", name, sample={"witness": FILTER[name]})
 
 
+# each argument expression must be evaluated exactly once (Copy arguments, so that a re-evaluation would compile)
+MM_EVAL = """
+#[derive(Copy, Clone)] pub struct C(pub u8);
+#[inline(never)] pub fn a1() -> C { loop {} }
+#[inline(never)] pub fn a2() -> C { loop {} }
+#[inline(never)] pub fn a1u() -> u8 { loop {} }
+#[inline(never)] pub fn a2u() -> u8 { loop {} }
+#[inline(never)] pub fn keyc(x: &C) -> u8 { loop {} }
+#[inline(never)] pub fn cmpc(l: &C, r: &C) -> core::cmp::Ordering { loop {} }
+pub fn ev_min() -> u8 { konst::min!(a1u(), a2u()) }
+pub fn ev_max() -> u8 { konst::max!(a1u(), a2u()) }
+pub fn ev_min_by() -> C { konst::min_by!(a1(), a2(), |l, r| cmpc(l, r)) }
+pub fn ev_max_by() -> C { konst::max_by!(a1(), a2(), |l, r| cmpc(l, r)) }
+pub fn ev_min_by_key() -> C { konst::min_by_key!(a1(), a2(), |x| keyc(x)) }
+pub fn ev_max_by_key() -> C { konst::max_by_key!(a1(), a2(), |x| keyc(x)) }
+"""
+
+
+def minmax_eval(ctx):
+    prog, diag = witness_program(ctx, "w19e", "#![allow(unused)]\n" + MM_EVAL)
+    if prog is None:
+        ctx.violation("TAB-MINMAX", "eval-witness", "the min/max evaluation witness crate does not compile:\n%s" % diag[-2000:])
+        return
+    for name in ("ev_min", "ev_max", "ev_min_by", "ev_max_by", "ev_min_by_key", "ev_max_by_key"):
+        b = prog.get("w19e::" + name)
+        if b is None:
+            ctx.violation("TAB-MINMAX", name, "witness function %s missing" % name)
+            continue
+        bad = None
+        n = 0
+        for p in sym.paths_of(b, prog, inline_all_loopfree=True):
+            if p.kind != "return":
+                continue
+            n += 1
+            args = [e[1].split("::")[-1] for e in p.events if e[0] == "call" and e[1].split("::")[-1] in ("a1", "a2", "a1u", "a2u")]
+            # (the order is not part of the property: max_by_key! evaluates its second argument first, std the first)
+            if sorted(a[:2] for a in args) != ["a1", "a2"]:
+                bad = "argument expressions are evaluated as %s, expected each exactly once" % args
+            v = table.strip_gargs(p.value)
+            if not (v[0] == "call" and v[1].split("::")[-1] in ("a1", "a2", "a1u", "a2u")):
+                bad = bad or "returns %s, expected the value of one of the two argument expressions" % show(v)
+        if n == 0:
+            bad = "no returning path"
+        if bad:
+            ctx.violation("TAB-MINMAX", name + "|eval", "%s: %s" % (name, bad))
+        ctx.instance("TAB-MINMAX", name + "|eval", sample={"witness": name, "paths": n})
+
+
 def minmax(ctx):
+    minmax_eval(ctx)
     src = PRELUDE + "\n".join(s for s, _, _ in MINMAX.values()) + "\n"
     prog, diag = witness_program(ctx, "w19m", src.replace("w19", "w19"))
     if prog is None:
